@@ -151,7 +151,9 @@ def run_kani(prop, tier):
     return out
 
 
-def bounded_fallback(prop, tier, seed):
+def bounded_fallback(prop, tier, seed, known_classes=()):
+    """known_classes: failing-input classes of this property listed in known_findings.txt — a recorded defect found again by
+    the stand-in is reported as KNOWN-FINDING by the caller, not as a violation of the changed tree."""
     cfg = _cfg().get(prop, {})
     b = cfg.get("bounded")
     if not b:
@@ -160,7 +162,9 @@ def bounded_fallback(prop, tier, seed):
     if err:
         return None
     summ = [r for r in res if r.get("summary")]
-    bad = [r for r in res if r.get("violation")]
+    bad_all = [r for r in res if r.get("violation")]
+    bad = [r for r in bad_all if r.get("class") not in known_classes]
+    known_hit = sorted({r.get("class") for r in bad_all if r.get("class") in known_classes})
     if not summ:
         return None
     s = summ[0]
@@ -175,4 +179,4 @@ def bounded_fallback(prop, tier, seed):
     if bad:
         rp = os.path.join(VERIF, "evidence", "replays", "%s-bounded.json" % prop)
         json.dump(dict(property=prop, failing_inputs=bad[:3], note="found by bounded stand-in after the proof was lost"), open(rp, "w"), indent=1)
-    return dict(evidence=ev, violation=bool(bad), replay=rp)
+    return dict(evidence=ev, violation=bool(bad), replay=rp, known_hit=known_hit)
